@@ -265,6 +265,29 @@ Theorem C13_test_bookkeeping_programs : forall o ff argss st,
 Proof. exact test_bookkeeping_programs. Qed.
 Print Assumptions C13_test_bookkeeping_programs.
 
+(* the message of a failed test: none with <= 2 arguments; with exactly 3 the
+   third argument verbatim — whatever characters it contains, no oracle, no
+   formatting; with >= 4 sprintf of the third argument over the rest
+   (docs: "test 1 val "val is %v" val" = "test 1 val (sprintf "val is %v" val)");
+   and the failure text is "want != got: <repr want> != <repr got>" + that part *)
+Theorem C13_test_message : forall o a b m msg,
+  any_inner m = VStr msg ->
+  (forall args, (List.length args <= 2)%nat -> test_message o args = Some []) /\
+  test_message o [a; b; m] = Some (s_ " (" ++ msg ++ s_ ")") /\
+  (forall x rest, test_message o (a :: b :: m :: x :: rest)
+                  = option_map (fun r => s_ " (" ++ r ++ s_ ")") (sprintf o msg (x :: rest))) /\
+  (same a b = false ->
+   test_func o [a; b] = OTestFail (s_ "want != got: " ++ vrepr o a ++ s_ " != " ++ vrepr o b) /\
+   test_func o [a; b; m] = OTestFail (s_ "want != got: " ++ vrepr o a ++ s_ " != " ++ vrepr o b ++ s_ " (" ++ msg ++ s_ ")")).
+Proof.
+  intros o a b m msg H. split; [intros args; apply test_message_none|].
+  split; [apply test_message_three, H|]. split; [intros x rest; apply test_message_format, H|].
+  intros S. split.
+  - rewrite (test_func_failure o a b [] [] S I eq_refl). rewrite app_nil_r. reflexivity.
+  - apply test_func_failure; [exact S | exists msg; exact H | apply test_message_three, H].
+Qed.
+Print Assumptions C13_test_message.
+
 Theorem C13_test_summary : forall ns t,
   report ns t =
   if ns || Nat.eqb (t_total t) 0 then None
@@ -329,6 +352,18 @@ Example C13_ex_tests :
   /\ run_tests true [ORet VNone; OTestFail (s_ "m"); ORet VNone] ti_init
     = ({| t_total := 2; t_errors := [s_ "m"] |}, Some (OTestFail (s_ "m"))).
 Proof. vm_compute. split; reflexivity. Qed.
+
+(* a '%' in a plain three-argument message is just a character; with a fourth
+   argument the same text is a format string *)
+Example C13_ex_test_message :
+  let o := const_oracles PFSyntax in
+  test_func o [VAny TBool (VBool true); VAny TBool (VBool false); VAny TStr (VStr (s_ "below 100% of target"))]
+    = OTestFail (s_ "want != got: true != false (below 100% of target)")
+  /\ test_func o [VAny TBool (VBool true); VAny TBool (VBool false); VAny TStr (VStr (s_ "is %v%%")); VAny TStr (VStr (s_ "x"))]
+    = OTestFail (s_ "want != got: true != false (is x%)")
+  /\ test_func o [VAny TBool (VBool true); VAny TBool (VBool false); VAny TStr (VStr (s_ "is %v%%"))]
+    = OTestFail (s_ "want != got: true != false (is %v%%)").
+Proof. vm_compute. repeat split; reflexivity. Qed.
 
 Example C13_ex_exit :
   exit_status (fc_lit 256) = 0%Z /\ exit_status (fc_lit (-1)) = 255%Z /\ exit_status fc_half = 0%Z /\ exit_status (fc_lit 3) = 3%Z
